@@ -8,7 +8,9 @@ RULE = ('(1) S-VM hash steps: the NodeHash.value tree of random engine graphs is
         '(2) S-HASH families: a random base graph and up to 6 single-step mutants (other function, constant, swapped '
         'arguments, keyword name, wiring, switch routing, moved Silent mark) sharing their function objects; every node '
         'x 2 inputs is hashed by the real code and grouped by NodeHash equality; inside a group the Silent-erased '
-        'computations (independent oracle) must be equal. distinct_nontrivial counts hash groups holding >= 2 evaluations')
+        'computations (independent oracle) must be equal; (3) S-SCHED: two or three real threads under the deterministic scheduler (gates at '
+        'user functions, cache locks and inside the equality of gated string keys) calling one pipeline: the node hash every call computes '
+        'must be the one a sequential execution computes. distinct_nontrivial counts hash groups holding >= 2 evaluations')
 
 
 def _shard(args):
@@ -61,6 +63,15 @@ def run(tier, seed, res, lean):
             'c05-decode', 'on a plain graph the value returned by the real code is not decode(node hash): the theorem '
             'CM.C05.hash_determines_value no longer describes the code', {'suite': 'S-VM', 'theorems': list(lean['theorems']),
                                                                             'cases': stats['decode_bad'][:2]}, found_input=False))
+    # concurrent evaluations sharing edge objects: the node hash a call computes while other calls run (deterministic
+    # scheduler of S-SCHED, keys with gated equality) must be the hash of a sequential execution
+    from .. import suite_sched
+    sched = pmap(suite_sched.run_shard, [(seed * 4447 + i + 3, 6, (12, 6) if tier == 'quick' else (60, 30), tier != 'quick')
+                                         for i in range(shards)])
+    hash_races = [p for o in sched for p in o[1] if p['msg'].startswith('HASH')]
+    for p in hash_races[:3]:
+        res.violations.append(Violation('c05-concurrent-hash', p['msg'][:400], {'suite': 'S-SCHED', **p}))
+    res.coverage['concurrent_hash_schedules'] = sum(o[0]['schedules'] for o in sched)
     fam = {}
     for o in outs:
         for k, v in o[6].items():
